@@ -91,6 +91,7 @@ def run(ctx, chk):
         bb, enum, targets, else_t, rest, pexpr = sws[0]
         if "Abort" in targets:
             sub = type(chk)("C18", chk.tier, chk.seed, "", "")
+            rules_c20.ZVT_ADTS.update(zvt.adts)
             rules_c20.check_arm(sub, f, "read_card", enum, "Abort", follow(f, targets["Abort"]), bb)
             for o in sub.obligations:
                 o = dict(o)
